@@ -274,3 +274,147 @@ Proof.
   apply (lincomb_fuel_transfer castq castr _ _ Hc 2
            {| e_a := a; e_b := b; e_x1 := x1; e_x2 := x2; e_out := out |} sq sr Hs).
 Qed.
+
+(* ================= the space level: nested spaces and the regenerated operator programs ================= *)
+From Verif Require Import Gen.SpaceOps C01.ModelSpace.
+
+(* division is total on both sides (x / 0 = 0 at Q and at R), so Q2R commutes unconditionally *)
+Lemma Q2R_ndiv_total (a b : Q) : Q2R (ndiv a b) = ndiv (Q2R a) (Q2R b).
+Proof.
+  destruct (Qeq_dec b 0) as [Hz | Hnz]; [|apply Q2R_ndiv; exact Hnz].
+  cbn [ndiv Num_Q Num_R]. unfold Qdiv'. rewrite Q2R_red.
+  assert (Eb : Q2R b = 0%R) by (rewrite (Qeq_eqR _ _ Hz); apply Q2R_0).
+  rewrite Eb. unfold Rdiv. rewrite Rinv_0, Rmult_0_r.
+  rewrite <- Q2R_0. apply Qeq_eqR. unfold Qdiv. rewrite Hz. unfold Qinv. cbn. ring.
+Qed.
+
+Lemma uf_transfer (u : ufunc) (a b : Q) : Q2R (uf_fn u a b) = uf_fn u (Q2R a) (Q2R b).
+Proof. destruct u; cbn [uf_fn]; auto using Q2R_nmul, Q2R_ndiv_total, Q2R_nadd, Q2R_nsub. Qed.
+
+Lemma ufunc_impl_transfer c x1 x2 out sq sr : sim sq sr ->
+  osim (ufunc_impl c x1 x2 out sq) (ufunc_impl c x1 x2 out sr).
+Proof.
+  intros Hs. destruct c as [[[u pa] pb] po]. cbn [ufunc_impl osim].
+  apply sim_upd; [exact Hs|]. rewrite !Hs. symmetry. apply QR_vmap2. intros; apply uf_transfer.
+Qed.
+
+Lemma sim_length sq sr i : sim sq sr -> length (sr i) = length (sq i).
+Proof. intros Hs. rewrite Hs. apply map_length. Qed.
+
+Scheme elem_mut_tr := Induction for elem Sort Prop
+  with elems_mut_tr := Induction for elems Sort Prop.
+
+Section SpaceTransfer.
+Variable flg : nat -> bool * bool.
+Variable bdtf : nat -> bool.
+Variables (icq : Q -> Q) (icr : R -> R).
+Hypothesis Hic : forall q, Q2R (icq q) = icr (Q2R q).
+
+Definition leaf_sim (oq : @leafop Q) (or : @leafop R) : Prop :=
+  forall fl i1 i2 io sq sr, sim sq sr -> osim (oq fl i1 i2 io sq) (or fl i1 i2 io sr).
+
+Lemma sval2_transfer (a b : Q) (c : sc) : Q2R (sval2 a b c) = sval2 (Q2R a) (Q2R b) c.
+Proof. unfold sval2. rewrite sval_transfer. reflexivity. Qed.
+
+Lemma lincomb_leaf_transfer (a b : Q) :
+  leaf_sim (lincomb_leaf flg bdtf icq a b) (lincomb_leaf flg bdtf icr (Q2R a) (Q2R b)).
+Proof.
+  intros fl i1 i2 io sq sr Hs. unfold lincomb_leaf, tensor_lincomb.
+  destruct (elems3 discr_lincomb_call) as [[d1 d2] do].
+  destruct tensor_lincomb_call as [[[[pa p1] pb] p2] po].
+  unfold lincomb_impl. rewrite (sim_length sq sr _ Hs), <- !sval2_transfer.
+  apply lincomb_impl_transfer; [|exact Hs]. destruct fl; [reflexivity | exact Hic].
+Qed.
+Lemma multiply_leaf_transfer : leaf_sim (@multiply_leaf Q _) (@multiply_leaf R _).
+Proof.
+  intros fl i1 i2 io sq sr Hs. unfold multiply_leaf. destruct discr_multiply_call as [[d1 d2] do].
+  apply ufunc_impl_transfer, Hs.
+Qed.
+Lemma divide_leaf_transfer : leaf_sim (@divide_leaf Q _) (@divide_leaf R _).
+Proof.
+  intros fl i1 i2 io sq sr Hs. unfold divide_leaf. destruct discr_divide_call as [[d1 d2] do].
+  destruct fl; [apply ufunc_impl_transfer, Hs | exact I].
+Qed.
+
+Scheme space_mut2 := Induction for space Sort Prop
+  with spaces_mut2 := Induction for spaces Sort Prop.
+
+Lemma ps_map3p_transfer pm (oq : @leafop Q) (or : @leafop R) : leaf_sim oq or ->
+  forall sp x1 x2 out sq sr, sim sq sr ->
+  osim (ps_map3p pm oq sp x1 x2 out sq) (ps_map3p pm or sp x1 x2 out sr).
+Proof.
+  intros Hop sp.
+  apply (space_mut2
+    (fun sp => forall x1 x2 out sq sr, sim sq sr ->
+       osim (ps_map3p pm oq sp x1 x2 out sq) (ps_map3p pm or sp x1 x2 out sr))
+    (fun sps => forall p1 p2 po sq sr, sim sq sr ->
+       osim (ps_map3ps pm oq sps p1 p2 po sq) (ps_map3ps pm or sps p1 p2 po sr))).
+  - intros fl x1 x2 out sq sr Hs. destruct x1, x2, out; cbn [ps_map3p]; try exact I. apply Hop, Hs.
+  - intros sps IH x1 x2 out sq sr Hs. destruct x1, x2, out; cbn [ps_map3p]; try exact I. apply IH, Hs.
+  - intros p1 p2 po sq sr Hs. destruct p1, p2, po; cbn [ps_map3ps]; try exact I. exact Hs.
+  - intros sp' IHsp sps IHsps p1 p2 po sq sr Hs.
+    destruct p1 as [|x p1], p2 as [|y p2], po as [|o po]; try exact I.
+    destruct pm as [[q1 q2] qo].
+    change (osim (bind (ps_map3p (q1, q2, qo) oq sp' (pick3 q1 x y o) (pick3 q2 x y o) (pick3 qo x y o) sq)
+                       (ps_map3ps (q1, q2, qo) oq sps p1 p2 po))
+                 (bind (ps_map3p (q1, q2, qo) or sp' (pick3 q1 x y o) (pick3 q2 x y o) (pick3 qo x y o) sr)
+                       (ps_map3ps (q1, q2, qo) or sps p1 p2 po))).
+    apply osim_bind; [apply IHsp, Hs | intros; apply IHsps; assumption].
+Qed.
+
+Lemma fill_elem_transfer (c : Q) : forall (e : elem) sq sr, sim sq sr ->
+  sim (fill_elem c e sq) (fill_elem (Q2R c) e sr).
+Proof.
+  apply (elem_mut_tr
+    (fun e => forall sq sr, sim sq sr -> sim (fill_elem c e sq) (fill_elem (Q2R c) e sr))
+    (fun es => forall sq sr, sim sq sr -> sim (fill_elems c es sq) (fill_elems (Q2R c) es sr))).
+  - intros i sq sr Hs. cbn [fill_elem]. apply sim_upd; [exact Hs|]. rewrite Hs, !map_map. reflexivity.
+  - intros es IH sq sr Hs. cbn [fill_elem]. apply IH, Hs.
+  - intros sq sr Hs. exact Hs.
+  - intros e IHe es IHes sq sr Hs. cbn [fill_elems]. apply IHes, IHe, Hs.
+Qed.
+
+Lemma ps_lincomb_transfer sp (a b : Q) x1 x2 out sq sr : sim sq sr ->
+  osim (ps_lincomb flg bdtf icq sp a x1 b x2 out sq) (ps_lincomb flg bdtf icr sp (Q2R a) x1 (Q2R b) x2 out sr).
+Proof. intros Hs. unfold ps_lincomb. apply ps_map3p_transfer; [apply lincomb_leaf_transfer | exact Hs]. Qed.
+Lemma ps_multiply_transfer sp x1 x2 out sq sr : sim sq sr ->
+  osim (@ps_multiply Q _ sp x1 x2 out sq) (@ps_multiply R _ sp x1 x2 out sr).
+Proof. intros Hs. unfold ps_multiply. apply ps_map3p_transfer; [apply multiply_leaf_transfer | exact Hs]. Qed.
+Lemma ps_divide_transfer sp x1 x2 out sq sr : sim sq sr ->
+  osim (@ps_divide Q _ sp x1 x2 out sq) (@ps_divide R _ sp x1 x2 out sr).
+Proof. intros Hs. unfold ps_divide. apply ps_map3p_transfer; [apply divide_leaf_transfer | exact Hs]. Qed.
+
+Lemma sref_transfer (r : sref) (c : Q) : Q2R (sref_val r c) = sref_val r (Q2R c).
+Proof.
+  destruct r; cbn [sref_val].
+  - apply Q2R_of_Z. - reflexivity. - apply Q2R_nopp.
+  - rewrite Q2R_ndiv_total, Q2R_of_Z. reflexivity.
+Qed.
+
+Lemma run_call_transfer sp (st : wstmt) self other (c : Q) tmp sq sr : sim sq sr ->
+  osim (run_call flg bdtf icq sp st self other c tmp sq) (run_call flg bdtf icr sp st self other (Q2R c) tmp sr).
+Proof.
+  intros Hs. destruct st; cbn [run_call]; try exact Hs.
+  - unfold w_lincomb1. destruct space_lincomb1_call as [[[[pa p1] pb] p2] po].
+    rewrite <- !sref_transfer. rewrite <- Q2R_nzero at 1 2. rewrite <- !sval2_transfer.
+    apply ps_lincomb_transfer, Hs.
+  - unfold w_lincomb2. destruct space_lincomb2_call as [[[[pa p1] pb] p2] po].
+    rewrite <- !sref_transfer, <- !sval2_transfer. apply ps_lincomb_transfer, Hs.
+  - unfold w_multiply. destruct space_multiply_call as [[p1 p2] po]. apply ps_multiply_transfer, Hs.
+  - unfold w_divide. destruct space_divide_call as [[p1 p2] po]. apply ps_divide_transfer, Hs.
+Qed.
+
+(* every regenerated operator program: the run at Q is the rational restriction of the run at R *)
+Theorem run_w_transfer sp (l : list wstmt) self other (c : Q) tmp : forall sq sr, sim sq sr ->
+  osim (run_w flg bdtf icq sp l self other c tmp sq) (run_w flg bdtf icr sp l self other (Q2R c) tmp sr).
+Proof.
+  induction l as [|st l IH]; intros sq sr Hs; [exact Hs|].
+  destruct st; cbn [run_w].
+  - apply IH, Hs.
+  - unfold with_one. apply IH. rewrite <- (Q2R_of_Z 1). apply fill_elem_transfer, Hs.
+  - destruct l; [apply run_call_transfer, Hs | unfold seq; apply osim_bind; [apply run_call_transfer, Hs | exact IH]].
+  - destruct l; [apply run_call_transfer, Hs | unfold seq; apply osim_bind; [apply run_call_transfer, Hs | exact IH]].
+  - destruct l; [apply run_call_transfer, Hs | unfold seq; apply osim_bind; [apply run_call_transfer, Hs | exact IH]].
+  - destruct l; [apply run_call_transfer, Hs | unfold seq; apply osim_bind; [apply run_call_transfer, Hs | exact IH]].
+Qed.
+End SpaceTransfer.
